@@ -129,8 +129,21 @@ Definition objv (v : gv) : option (bool * list (str * gv)) :=
   | _ => None
   end.
 
-(** number conversion agrees with number-unless-string conversion *)
-Definition nn (v : gv) : Prop := convert_number v = convert_unless_string v.
+(** a stored field on which number conversion and number-unless-string
+    conversion agree: not a string spelling a number (nor a pointer to one) *)
+Definition nn (v : gv) : Prop :=
+  match v with
+  | VStr _ s | VPtr (Some (VStr _ s)) => dec_of_string s = None
+  | _ => True
+  end.
+
+Lemma nn_spec v : nn v -> convert_number v = convert_unless_string v.
+Proof.
+  intros H. unfold convert_unless_string. destruct (is_go_string v) eqn:E; [|reflexivity].
+  destruct v as [| | | |[|] s| | | | | | | |]; try discriminate E. cbn in H.
+  unfold convert_number, convert_number_check.
+  destruct (is_empty_value (value_of (VStr false s))); cbn; rewrite H; reflexivity.
+Qed.
 
 (** how a stored field is compared: when structs are admitted a field is only
     ever observed through convertToDecimalIfNumber *)
@@ -519,7 +532,7 @@ Qed.
 Lemma Rf_cn a b : Rf a b -> R (convert_number a) (convert_number b).
 Proof.
   unfold Rf, fcv. intros [H Hn]. destruct st.
-  - destruct (Hn eq_refl) as [Na Nb]. unfold nn in Na, Nb. rewrite Na, Nb. exact H.
+  - destruct (Hn eq_refl) as [Na Nb]. rewrite (nn_spec _ Na), (nn_spec _ Nb). exact H.
   - apply R_convert_number. exact H.
 Qed.
 
@@ -531,9 +544,9 @@ Proof.
   destruct x2 as [| | | | | | | | |kt2 vt2 m2 kvs2|fs02| |]; try discriminate H2; cbn [conv_of].
   - apply Rf_cn. exact H.
   - cbn [objv] in H2. destruct st eqn:Est; [|discriminate H2].
-    destruct H as [H Hn]. unfold fcv in H. rewrite Est in H. destruct (Hn Est) as [Na Nb]. unfold nn in Na. rewrite Na. exact H.
+    destruct H as [H Hn]. unfold fcv in H. rewrite Est in H. destruct (Hn Est) as [Na Nb]. rewrite (nn_spec _ Na). exact H.
   - cbn [objv] in H1. destruct st eqn:Est; [|discriminate H1].
-    destruct H as [H Hn]. unfold fcv in H. rewrite Est in H. destruct (Hn Est) as [Na Nb]. unfold nn in Nb. rewrite Nb. exact H.
+    destruct H as [H Hn]. unfold fcv in H. rewrite Est in H. destruct (Hn Est) as [Na Nb]. rewrite (nn_spec _ Nb). exact H.
   - apply Rf_cus. exact H.
 Qed.
 
@@ -698,8 +711,9 @@ Qed.
 Definition gass_rel (o1 o2 : option (gv * bool)) : Prop :=
   match o1, o2 with
   | None, None => True
-  | Some (v1, true), Some (v2, true) => R v1 v2
-  | Some (VSlice EAny false xs1, false), Some (VSlice EAny false xs2, false) => Forall2 R xs1 xs2
+  | Some (v1, b1), Some (v2, b2) =>
+      if (b1 : bool) then b2 = true /\ R v1 v2
+      else b2 = false /\ exists xs1 xs2, v1 = VSlice EAny false xs1 /\ v2 = VSlice EAny false xs2 /\ Forall2 R xs1 xs2
   | _, _ => False
   end.
 
@@ -713,11 +727,12 @@ Proof.
   - destruct v1 as [| | | i1 n1 f1 | | | | | | | | |]; try discriminate H1;
     destruct v2 as [| | | i2 n2 f2 | | | | | | | | |]; try discriminate H2; try discriminate He;
       try (destruct f1); try (destruct f2); try discriminate H1; try discriminate H2; try exact I.
-    cbn [gass_rel]. eapply R_num; eassumption.
+    cbn [gass_rel]. split; [reflexivity|]. eapply R_num; eassumption.
   - destruct v1; try discriminate H1; destruct v2; try discriminate H2;
-      cbn [elems_of] in H1, H2; injection H1 as _ <-; injection H2 as _ <-; exact Hxs.
+      cbn [elems_of] in H1, H2; injection H1 as _ <-; injection H2 as _ <-;
+      (split; [reflexivity|]; eexists; eexists; split; [reflexivity|]; split; [reflexivity|]; exact Hxs).
   - assert (HR : R v1 v2) by (eapply R_obj; eassumption).
-    destruct v1; try discriminate H1; destruct v2; try discriminate H2; exact HR.
+    destruct v1; try discriminate H1; destruct v2; try discriminate H2; (split; [reflexivity | exact HR]).
 Qed.
 
 (** ** Function parameters *)
